@@ -3,7 +3,6 @@ package main
 import (
 	"fmt"
 	"os"
-	"sort"
 	"strings"
 
 	"github.com/traefik/yaegi/interp"
@@ -82,8 +81,54 @@ func (r *refDbg) before(n interp.VerifC19Node, marked bool) bool {
 	return false
 }
 
-// refEvents: the stops a debugger with exact knowledge of the executing node makes on this tape.
-func refEvents(dump []interp.VerifC19Node, marks map[int]bool, cmds string, tape []itemT) []eventT {
+// isStepNode: the node, when it executes, is a step of the program at a source position (a statement or an
+// operation, as opposed to the join points of compound statements, which execute after their parts).
+func isStepNode(dump []interp.VerifC19Node, i int) bool {
+	n := dump[i]
+	if !n.PosValid {
+		return false
+	}
+	switch n.Kind {
+	case "breakStmt", "continueStmt", "fallthroughStmt", "gotoStmt":
+		return true
+	}
+	return n.Action != "nop" || (n.Start == i && len(n.Children) == 0)
+}
+
+// funcStarts: the entry node of the first declaration of every requested function.
+func funcStarts(dump []interp.VerifC19Node, bps []bpT) map[int]bool {
+	out := map[int]bool{}
+	done := map[string]bool{}
+	want := map[string]bool{}
+	for _, b := range bps {
+		if b.Func != "" {
+			want[b.Func] = true
+		}
+	}
+	for _, n := range dump {
+		if n.Func != "" && want[n.Func] && !done[n.Func] && n.Start >= 0 {
+			done[n.Func] = true
+			out[n.Start] = true
+		}
+	}
+	return out
+}
+
+// refEvents: the stops a debugger with exact knowledge of the executing node makes on this tape. Line
+// breakpoints are read at the level of lines, without any notion of marked node: **one stop each time an
+// activation enters a requested line, before anything on the line runs** — the step about to execute is on
+// the line and the previous step of the activation is not (or there is none, or it is this very node);
+// a function breakpoint stops whenever the entry node of the function is about to run.
+// Returns also the requested lines on which a step executed.
+func refEvents(dump []interp.VerifC19Node, bps []bpT, cmds string, tape []itemT) ([]eventT, map[int]bool) {
+	lines := map[int]bool{}
+	for _, b := range bps {
+		if b.Func == "" {
+			lines[b.Line] = true
+		}
+	}
+	calls := funcStarts(dump, bps)
+	executed := map[int]bool{}
 	r := &refDbg{mode: "entry", cmds: cmds}
 	first := byte('c')
 	if len(cmds) > 0 {
@@ -91,6 +136,25 @@ func refEvents(dump []interp.VerifC19Node, marks map[int]bool, cmds string, tape
 		r.ci = 1
 	}
 	r.apply(first)
+	var prev []int // last step of every live activation (-1: none)
+	exec := func(node int) bool {
+		n := dump[node]
+		top := len(prev) - 1
+		hit := calls[node]
+		if isStepNode(dump, node) {
+			if lines[n.Line] {
+				executed[n.Line] = true
+				if top < 0 || prev[top] < 0 || prev[top] == node || dump[prev[top]].Line != n.Line {
+					hit = true
+				}
+			}
+		}
+		stop := r.before(n, hit)
+		if top >= 0 && isStepNode(dump, node) {
+			prev[top] = node
+		}
+		return stop
+	}
 	for _, it := range tape {
 		switch it.Kind {
 		case 'c':
@@ -98,24 +162,28 @@ func refEvents(dump []interp.VerifC19Node, marks map[int]bool, cmds string, tape
 				continue
 			}
 			r.depth++
-			if r.before(dump[it.Node], marks[it.Node]) {
-				return r.events
+			prev = append(prev, -1)
+			if exec(it.Node) {
+				return r.events, executed
 			}
 			r.steps++
 		case 'n':
-			if r.before(dump[it.Node], marks[it.Node]) {
-				return r.events
+			if exec(it.Node) {
+				return r.events, executed
 			}
 			r.steps++
 		case 'z':
 			if r.depth > 0 {
 				r.depth--
 			}
+			if len(prev) > 0 {
+				prev = prev[:len(prev)-1]
+			}
 		case 'p':
-			return r.events
+			return r.events, executed
 		}
 	}
-	return r.events
+	return r.events, executed
 }
 
 // ---- hypotheses of the tracking theorems, computed on the input (program graph and its run) ----
@@ -242,8 +310,8 @@ func protocolLine(dump []interp.VerifC19Node, tramp uintptr, bps []bpT, cmds str
 		if n.Func != "" {
 			fn = common.Q(n.Func)
 		}
-		fmt.Fprintf(&b, " (%d %d %d %s %s %d %s %s %s (%s) %s %s)", n.Code, n.Clo, n.Forward, optIdx(n.Tnext), optIdx(n.Fnext), n.Line,
-			common.B(n.PosValid), common.B(n.Action == "nop"), optIdx(n.Parent), strings.Join(ch, " "), fn, optIdx(n.Start))
+		fmt.Fprintf(&b, " (%d %d %d %s %s %d %s %s %s (%s) %s %s %s)", n.Code, n.Clo, n.Forward, optIdx(n.Tnext), optIdx(n.Fnext), n.Line,
+			common.B(n.PosValid), common.B(n.Action == "nop"), optIdx(n.Parent), strings.Join(ch, " "), fn, optIdx(n.Start), n.Kind)
 	}
 	fmt.Fprintf(&b, ") %d (b", tramp)
 	for _, bp := range bps {
@@ -275,24 +343,28 @@ func protocolLine(dump []interp.VerifC19Node, tramp uintptr, bps []bpT, cmds str
 	return b.String()
 }
 
-func marksOf(dump []interp.VerifC19Node) (map[int]bool, string) {
-	m := map[int]bool{}
-	var ids []int
+// marksOf: the nodes with breakOnLine / breakOnCall in the dump, as sorted id lists.
+func marksOf(dump []interp.VerifC19Node) (line, call string) {
+	show := func(ids []int) string {
+		if len(ids) == 0 {
+			return "-"
+		}
+		s := make([]string, len(ids))
+		for i, id := range ids {
+			s[i] = fmt.Sprint(id)
+		}
+		return strings.Join(s, ".")
+	}
+	var l, c []int
 	for i, n := range dump {
-		if n.BrkLine || n.BrkCall {
-			m[i] = true
-			ids = append(ids, i)
+		if n.BrkLine {
+			l = append(l, i)
+		}
+		if n.BrkCall {
+			c = append(c, i)
 		}
 	}
-	sort.Ints(ids)
-	if len(ids) == 0 {
-		return m, "-"
-	}
-	s := make([]string, len(ids))
-	for i, id := range ids {
-		s[i] = fmt.Sprint(id)
-	}
-	return m, strings.Join(s, ".")
+	return show(l), show(c)
 }
 
 // breaks keeps the break events (line and step).
